@@ -1,5 +1,6 @@
 import Anndb.Model.Allocator
 import Anndb.Generated
+import Anndb.Model.Unload
 /-!
 # C18 — Membership changes and restarts never wedge a node's control plane (partial)
 
@@ -225,6 +226,44 @@ theorem loop_waits_for_commit_in_handler : Generated.allocatorHandlerWaitsForCom
 path through its apply function: no return that knows the notification id comes without a Notify
 (regenerated; seeded change C18-D returns early for a replica that is listed already) -/
 theorem catalogue_apply_always_notifies : Generated.catalogueApplyAlwaysNotifies = true := by decide
+
+/-! ## unloading a raft group (dataset deleted, replica moved away, catalogue replayed after a restart)
+
+`unloadRaft` stops the group and deletes its log. The group's loop may hold a `Ready` whose
+`wal.Save` is still to come; if that write finds the log gone the node ends itself (`log.Fatal`).
+Replaying "create dataset, delete dataset" after a restart does exactly this to a group that has
+just started. Repaired in `/repo`: `Stop` returns only once the loop has ended. -/
+
+/-- **no write after the delete**: when `Stop` waits for the loop, in every interleaving of the loop
+and the unloader the log is deleted only after the loop has ended, so no write ever finds it gone -/
+theorem unload_never_fatal (c : Unload.Cfg) (r : Unload.Reach true c) :
+    c.fatal = false ∧ (c.u = Unload.UPc.deleted → c.loop = Unload.LoopPc.ended) := by
+  induction r with
+  | init => exact ⟨rfl, by intro h; cases h⟩
+  | @step c c' _ s ih =>
+    obtain ⟨hf, hd⟩ := ih
+    cases s with
+    | take hl hu => exact ⟨hf, by intro h; simp_all⟩
+    | save hl =>
+      refine ⟨?_, by intro h; have := hd h; simp_all⟩
+      by_cases hdel : c.u = Unload.UPc.deleted
+      · have := hd hdel; simp_all
+      · simp [hf, hdel]
+    | finish hl hu => exact ⟨hf, by intro _; rfl⟩
+    | stop hu => exact ⟨hf, by intro h; cases h⟩
+    | delete hu hw => exact ⟨hf, by intro _; exact hw rfl⟩
+
+/-- without the wait (the code before the repair) the loop's pending write can come after the
+delete: take a Ready, stop, delete the log, write — the node is gone -/
+theorem unload_without_wait_can_be_fatal : ∃ c : Unload.Cfg, Unload.Reach false c ∧ c.fatal = true := by
+  refine ⟨⟨.select, .deleted, true⟩, ?_, rfl⟩
+  have h1 : Unload.Reach false ⟨.handling, .running, false⟩ := .step .init (.take _ rfl rfl)
+  have h2 : Unload.Reach false ⟨.handling, .stopped, false⟩ := .step h1 (.stop _ rfl)
+  have h3 : Unload.Reach false ⟨.handling, .deleted, false⟩ := .step h2 (.delete _ rfl (by intro h; cases h))
+  exact .step h3 (.save _ rfl)
+
+/-- the wait is in the code on this run, and `unloadRaft` deletes the log after `Stop` (regenerated) -/
+theorem stop_waits_for_loop_in_code : Generated.raftStopWaitsForLoop = true := by decide
 
 /-! ## non-vacuity: a burst longer than the channel drains completely -/
 
